@@ -16,6 +16,8 @@ package route
 //	Send{path, evSet}        delivers one event through the named ingest path
 //	                         into the router's own mux (+ middleware) or gRPC
 //	                         server and reports what the router made of it.
+//	Ack                      the observation has been noted (requests are
+//	                         served one at a time; nothing is outstanding).
 //
 // Observation (Project): the ID-field lists and the destination's sampler key
 // fields are read back from the configuration object; the classification is
@@ -57,8 +59,10 @@ import (
 	resource "go.opentelemetry.io/proto/otlp/resource/v1"
 	trace "go.opentelemetry.io/proto/otlp/trace/v1"
 	"google.golang.org/grpc"
+	"google.golang.org/grpc/codes"
 	"google.golang.org/grpc/credentials/insecure"
 	"google.golang.org/grpc/metadata"
+	"google.golang.org/grpc/status"
 	"google.golang.org/protobuf/encoding/protojson"
 	"google.golang.org/protobuf/proto"
 )
@@ -242,6 +246,8 @@ func (h *c21LiveHarness) writeFiles(main, rules bool) error {
 }
 
 func (h *c21LiveHarness) Reset(init map[string]any) error {
+	t0 := time.Now()
+	defer func() { c21LiveTiming["Reset"] += time.Since(t0); c21LiveCount["Reset"]++ }()
 	if h.stop != nil {
 		h.stop()
 		h.stop = nil
@@ -338,8 +344,6 @@ func (h *c21LiveHarness) reload(a map[string]any) error {
 	if err := h.cfg.Reload(); err != nil {
 		return fmt.Errorf("c21live: Reload refused the generated files: %v", err)
 	}
-	h.sink.take()
-	h.out = c21LiveNoOut()
 	return nil
 }
 
@@ -505,6 +509,9 @@ func (h *c21LiveHarness) deliver(path string, ev map[string]bool) (refused strin
 		defer cancel()
 		ctx = metadata.NewOutgoingContext(ctx, metadata.New(map[string]string{"x-honeycomb-team": c21LiveKey}))
 		if _, e := collectortrace.NewTraceServiceClient(h.grpcConn).Export(ctx, q); e != nil {
+			if c := status.Code(e); c == codes.DeadlineExceeded || c == codes.Unavailable || c == codes.Canceled {
+				return "", fmt.Errorf("c21live: gRPC transport: %w", e) // the loopback connection, not the router
+			}
 			return "grpc: " + e.Error(), nil
 		}
 		return "", nil
@@ -567,7 +574,16 @@ func (h *c21LiveHarness) send(a map[string]any) error {
 	return nil
 }
 
+var c21LiveTiming = map[string]time.Duration{}
+var c21LiveCount = map[string]int{}
+
 func (h *c21LiveHarness) Apply(a map[string]any) (err error) {
+	t0 := time.Now()
+	defer func() {
+		k := verifkit.Str(a, "name") + " " + verifkit.Str(a, "path")
+		c21LiveTiming[k] += time.Since(t0)
+		c21LiveCount[k]++
+	}()
 	defer func() {
 		if r := recover(); r != nil {
 			h.out = map[string]any{"tid": "-", "root": "-", "panic": fmt.Sprint(r)}
@@ -579,6 +595,13 @@ func (h *c21LiveHarness) Apply(a map[string]any) (err error) {
 		return h.send(a)
 	case "Reload":
 		return h.reload(a)
+	case "Ack": // the answer has been delivered and noted; nothing is outstanding
+		if extra := h.sink.take(); len(extra) != 0 {
+			h.out = map[string]any{"tid": fmt.Sprintf("handed on after the request was answered: %+v", extra), "root": "-"}
+			return nil
+		}
+		h.out = c21LiveNoOut()
+		return nil
 	}
 	return fmt.Errorf("c21live: unknown action %v", a)
 }
@@ -604,6 +627,9 @@ func TestVerifC21Live(t *testing.T) {
 	err := verifkit.Main(h)
 	if h.stop != nil {
 		h.stop()
+	}
+	for k, d := range c21LiveTiming {
+		t.Logf("TIMING %s: %d calls, %v each", k, c21LiveCount[k], d/time.Duration(c21LiveCount[k]))
 	}
 	if err != nil {
 		t.Fatal(err)
